@@ -76,6 +76,61 @@
             let out = env.render_named_str("lc2.html", "{% with w = 1 %}{% for a in [1, 2] %}{% for b in [1, 2, 3] %}{% if b == 2 %}{% continue %}{% endif %}{{ a }}{{ b }}{% endfor %};{% endfor %}{% endwith %}{{ w is defined }}", ()).unwrap();
             assert!(out == "1113;2123;False", "continue in a nested loop: {out:?}");
         }
+        // every way of leaving a loop, in every position: exhaustion, empty iteration, break / continue at each item,
+        // with and without an else branch, bare and inside with / capture / macro / outer loop; reference computed here
+        #[cfg(feature = "loop_controls")]
+        {
+            let lists: [&[i64]; 3] = [&[], &[1], &[1, 2, 3]];
+            let wrappers = [
+                ("W", ""), ("{% with w = 1 %}W{% endwith %}", ""), ("{% set c %}W{% endset %}[{{ c }}]", "[]"), ("{% macro mm() %}W{% endmacro %}{{ mm() }}", ""),
+                ("{% for o in [7, 8] %}W{{ loop.index }}{% endfor %}", "outer"), ("{% filter upper %}W{% endfilter %}", "upper"),
+                ("{% for it in [[5]] recursive %}{% if it is sequence %}{{ loop(it) }}{% else %}W{% endif %}{% endfor %}", ""),
+            ];
+            let mut m = 0;
+            for xs in lists { for brk in 0..=3i64 { for cont in 0..=3i64 { for has_else in [false, true] { for (wrap, kind) in wrappers {
+                let lit = format!("[{}]", xs.iter().map(|x| x.to_string()).collect::<Vec<_>>().join(", "));
+                let inner = format!("p{{% for i in {lit} %}}{{{{ i }}}}{{% if i == {brk} %}}{{% break %}}{{% endif %}}{{% if i == {cont} %}}{{% continue %}}{{% endif %}}.{}{{% endfor %}}q{{{{ i is defined }}}}",
+                                    if has_else { "{% else %}e" } else { "" });
+                let mut body = String::from("p");
+                for &i in xs { body.push_str(&i.to_string()); if i == brk { break; } if i == cont { continue; } body.push('.'); }
+                if xs.is_empty() && has_else { body.push('e'); }
+                body.push_str("qFalse");
+                let expected = match kind {
+                    "[]" => format!("[{body}]"),
+                    "outer" => format!("{body}1{body}2"),
+                    "upper" => body.to_uppercase(),
+                    _ => body.clone(),
+                };
+                let src = format!("A{}Z{{{{ loop is defined }}}}", wrap.replace('W', &inner));
+                let got = env.render_named_str("le.txt", &src, ()).unwrap_or_else(|e| panic!("{src:?}: {e:#}"));
+                assert!(got == format!("A{expected}ZFalse"), "loop exit: {src:?} rendered {got:?}, expected A{expected}ZFalse");
+                m += 1;
+            }}}}}
+            assert!(m == 3 * 4 * 4 * 2 * 7);
+        }
+        // an extending template evaluated while output is already being discarded or captured (from-import / include of
+        // a template that itself extends a layout): the enclosing capture / discard state is untouched afterwards
+        // (page.html extends its own layout: including a template that extends the layout the includer already extends is
+        // reported as an inheritance cycle by this engine, which is not this property's subject)
+        env.add_template("layout2.html", "M[{% block card %}c2{% endblock %}]").unwrap();
+        env.add_template("page.html", "{% extends 'layout2.html' %}{% macro pm() %}pm{% endmacro %}{% block card %}pc{% endblock %}junk").unwrap();
+        env.add_template("child.html", "{% extends 'layout.html' %}top{% include 'page.html' %}{% from 'page.html' import pm %}{% block card %}X{% from 'page.html' import pm %}{{ pm() }}{% endblock %}tail").unwrap();
+        for (src, want) in [
+            ("a{% from 'page.html' import pm %}b{{ pm() }}c", "abpmc"),
+            ("a{% import 'page.html' as pg %}b{{ pg.pm() }}c", "abpmc"),
+            ("a{% set s %}u{% from 'page.html' import pm %}{{ pm() }}v{% endset %}[{{ s }}]after", "a[upmv]after"),
+            ("a{% filter upper %}u{% from 'page.html' import pm %}{{ pm() }}v{% endfilter %}after", "aUPMVafter"),
+            ("{% for i in [1, 2] %}{% from 'page.html' import pm %}{{ pm() }}{{ i }}{% endfor %}after", "pm1pm2after"),
+            ("a{% include 'child.html' %}b", "aL[Xpm]b"),
+            ("a{% set s %}{% include 'child.html' %}{% endset %}[{{ s }}]b", "a[L[Xpm]]b"),
+        ] {
+            let got = std::panic::catch_unwind(std::panic::AssertUnwindSafe(|| env.render_named_str("x.txt", src, ())));
+            match got {
+                Ok(Ok(out)) => assert!(out == want, "extends under an enclosing capture / discard: {src:?} rendered {out:?}, expected {want:?}"),
+                Ok(Err(e)) => panic!("{src:?} failed: {e:#}"),
+                Err(_) => panic!("{src:?} panicked"),
+            }
+        }
         // macro and call bodies do not write into the closure shared with sibling macros
         let out = env.render_named_str("cl.html", "{% set outer = 'o' %}{% macro a(x) %}[{{ x }}{{ outer }}]{% endmacro %}{% macro b() %}[{{ x|default('unset') }}{{ outer }}]{% endmacro %}{{ a('arg') }}{{ b() }}{{ x is defined }}", ()).unwrap();
         assert!(out == "[argo][unseto]False", "macro argument leaked into a sibling macro: {out:?}");
